@@ -122,6 +122,16 @@ func (p *cartPair) verifyPages(l *explore.Local) *explore.Fail {
 	return nil
 }
 
+// c08Rejected: only the in-between size codes 52-54 may be refused; a supported controller type with a standard
+// size code that cannot even be constructed serves no ROM bank at all.
+func c08Rejected(s cartSpec) *explore.Fail {
+	if s.ROMCode >= 0x52 {
+		return nil
+	}
+	k, _ := ref.KindOf(s.Type)
+	return explore.Failf(k.String()+": a supported cartridge type is rejected at construction", "cart %s: building the memory map panics", s)
+}
+
 type c08Sweep struct {
 	Cart  cartSpec `json:"cart"`
 	Order int      `json:"order"`
@@ -130,6 +140,9 @@ type c08Sweep struct {
 func c08SweepCheck(l *explore.Local, _ struct{}, c c08Sweep) *explore.Fail {
 	p := tryCartPair(c.Cart)
 	if p == nil {
+		if f := c08Rejected(c.Cart); f != nil {
+			return f
+		}
 		l.OutcomeStr("rejected at construction: " + c.Cart.String())
 		return nil
 	}
@@ -190,6 +203,9 @@ var c08BlindAddrs = []uint16{0x0000, 0x2000, 0x2100, 0x3000, 0x4000, 0x6000}
 func c08BlindCheck(l *explore.Local, _ struct{}, c c08Blind) *explore.Fail {
 	p := tryCartPair(c.Spec)
 	if p == nil {
+		if f := c08Rejected(c.Spec); f != nil {
+			return f
+		}
 		l.OutcomeStr("rejected at construction: " + c.Spec.String())
 		return nil
 	}
